@@ -81,6 +81,16 @@ class CsvDataFile():
 
 
 def merge_escape_parts(parts, separator, escapechar):
+    def closed(t):
+        # the trailing quote closes the field unless it is itself escaped,
+        # i.e. preceded by an odd number of escape characters
+        count = 0
+        index = len(t) - 2
+        while index >= 0 and t[index] == escapechar:
+            count += 1
+            index -= 1
+        return count % 2 == 0
+
     try:
         merged_parts = []
         agg = None
@@ -92,9 +102,9 @@ def merge_escape_parts(parts, separator, escapechar):
                     agg.append('"')
                     merged_parts.append(separator.join(agg))
                     agg = None
-            elif len(t) > 0 and t[0] == '"' and t[-1] == '"' and t[-2] != escapechar and agg is None:
+            elif len(t) > 0 and t[0] == '"' and t[-1] == '"' and closed(t) and agg is None:
                 merged_parts.append(t)
-            elif len(t) > 0 and t[-1] == '"' and t[-2] != escapechar and agg is not None:
+            elif len(t) > 0 and t[-1] == '"' and closed(t) and agg is not None:
                 agg.append(t)
                 merged_parts.append(separator.join(agg))
                 agg = None
